@@ -254,7 +254,7 @@ def run_case(case):
         except NodeOverrideError:
             out = "exn NodeOverrideError"
         except Exception as e:  # noqa
-            out = "exn " + type(e).__name__
+            out = "exn " + common.exc_name(e)
             res.fail("unexpected-exception", "%r raised %r" % (op, e))
         db = view.snap()
         line = {"set": "bin.set 0 %s %s" % (hx(k), hx(v)), "setitem": "bin.set 0 %s %s" % (hx(k), hx(v)),
@@ -323,7 +323,7 @@ def run_case(case):
                 gi = t[p]
                 outg = "None" if g is None else "v " + hx(g)
             except Exception as ex:  # noqa
-                outg = "exn " + type(ex).__name__
+                outg = "exn " + common.exc_name(ex)
                 res.fail("lookup-raised", "get(%r) raised %r" % (p, ex))
                 res.emit("bin.get 0 %s" % hx(p), outg)
                 continue
@@ -342,7 +342,7 @@ def run_case(case):
                 if g != contents.get(p):
                     res.fail("old-root-wrong", "root %s: get(%r)=%r, it held %r" % (r.hex()[:12], p, g, contents.get(p)))
             except Exception as ex:  # noqa
-                outg = "exn " + type(ex).__name__
+                outg = "exn " + common.exc_name(ex)
                 res.fail("old-root-unreadable", "root %s: get(%r) raised %r" % (r.hex()[:12], p, ex))
             res.emit("bin.getat %s %s" % (hx(r), hx(p)), outg)
     res.nontrivial = maxkeys >= 2
